@@ -1,4 +1,5 @@
 import GopatchModel.FileM
+import GopatchModel.Spec.Assoc
 namespace Gopatch.C04
 open Gopatch
 
@@ -221,6 +222,23 @@ theorem dots_reproduced (mt : Meta) (assoc : List (Nat × Nat)) (e : String) (p 
 /-- what the matcher records for an elision is the run it skipped -/
 theorem run_recorded (d : Data) (k : Nat) (run : List V) : (d.pushDots k run).lookDots k = some run := by
   simp [Data.pushDots, Data.lookDots]
+
+/-- an elision that stands on an unchanged context line (the same patch position on the '-' and
+the '+' side) is associated with itself, so by `dots_reproduced` the run it stood for reappears
+at that place; the side conditions hold for every statement pattern (its implicit leading
+elision precedes everything) and whenever no '+' elision precedes all '-' elisions -/
+theorem context_line_elision_associated (c : Change) (k : Nat)
+    (hl : k ∈ collectDots (sidePattern c c.minus)) (hr : k ∈ collectDots (sidePattern c c.plus))
+    (hnd : (collectDots (sidePattern c c.plus)).Nodup)
+    (hall : ∀ r ∈ collectDots (sidePattern c c.plus), ∃ l ∈ collectDots (sidePattern c c.minus), l ≤ r) :
+    assocLook c.assoc k = some k := by
+  unfold Change.assoc assocLook
+  exact connectDots_self _ _ k hl hr hnd hall
+
+/-- "the only '...' on each side": a single '+' elision is associated with the single '-' elision
+when the latter does not come after it in the patch -/
+theorem single_elision_associated (l r : Nat) (h : l ≤ r) : (connectDots [l] [r]).lookup r = some l := by
+  simp [connectDots, sortAsc, insertAsc, connectDotsGo, nearestBefore, nbStep, h]
 
 /-! ### the behaviour before the `fix:` commit, refuted -/
 
